@@ -764,6 +764,20 @@ func runC13(c *CaseCtx) *CaseResult {
 	if c.Tier == "thorough" {
 		ops = 700 + r.Intn(1500)
 	}
+	if c.Case%16 >= 14 {
+		// trees of three and more levels (index slabs below index slabs): positioning a range / resuming an enumeration
+		// has to descend through several index levels
+		cc.Slab = 256
+		cc.Prof.Sizes = "small"
+		cc.Prof.PContainer = 2
+		cc.Prof.MaxDepth = 1
+		cc.Prof.BigKeys = false
+		cc.Prof.KeySpace = 20000
+		ops = 3600
+		if c.Tier == "thorough" {
+			ops = 9000 + r.Intn(9000)
+		}
+	}
 	cc.Ops = ops
 	cc.Hist = HistCfg{DescendPct: 8, PopOnChild: true}
 	cc.Mon = MonCfg{TreeEvery: 11, DeepEvery: 0, ColdAtCommit: false}
@@ -781,6 +795,11 @@ func runC13(c *CaseCtx) *CaseResult {
 		cc.Prof.KeySpace = 200
 	}
 	cc.Phases = scalePhases(ops, []Phase{PhaseGrow, PhaseChurn, PhaseGrow, PhaseShrink}, []int{35, 25, 25, 15})
+	if c.Case%16 >= 14 {
+		grow := Phase{Name: "grow", Insert: 90, Set: 3, Remove: 2, Read: 5, Meta: 0, Pop: 0}
+		cc.Phases = scalePhases(ops, []Phase{grow, PhaseChurn, grow}, []int{60, 10, 30})
+		cc.Mon.TreeEvery = 97
+	}
 	every := ops / 6
 	cc.PerOp = func(w *World, root *Node) error {
 		if w.opCount%every != 0 {
